@@ -41,6 +41,7 @@ What is proved for all inputs, and what is not:
 -/
 import PyttbModel.Lemmas.Presentation
 import PyttbModel.Lemmas.PresentationRun
+import PyttbModel.Lemmas.PresentationRelabelWitness
 namespace Pyttb
 open Pres
 
@@ -468,6 +469,134 @@ theorem C18_relabel_mttkrp_spec [Fintype ι] {κ ρ α : Type} [Fintype κ] [Dec
 
 end relabel
 
+/-! ### relabelling the modes: a whole CP-ALS run
+
+The model is again the one of C09 (`Alg/CpAls.lean`).  `D` is the data object of the first run and denotes the
+array `X` of shape `s`; `D'` is the data object of the second run and denotes `permute X p`: shape
+`gather s p` (mode `k` of the second problem is mode `p[k]` of the first), entries
+`X' j' = X (gather j' (invPerm p))`.  The second run gets the start relabelled (`CpAls.relabelInit`:
+`U'[k] = U[p[k]]`, the drawn matrices of a random start likewise), `dimorder` — with the default made
+explicit — and `optdims` mapped through `invPerm p` (`CpAls.relabelParams`), and a solver that answers the
+request tagged `k` the way the first run's solver answers the request tagged `p[k]`: the solver is a FUNCTION
+of the system it is handed (for a solver that ignores the tag: the same solver).  No contract of the solver, no
+regularity of the coefficient matrices and no "both runs return" is needed: relabelling is an exact symmetry
+of every step.  `CpAls.relabelSt p st` is the state with the per-mode lists (`U`, `UtU`) relabelled;
+`CpAls.relabelK p K` the Kruskal tensor with the factor list relabelled and the same weights;
+`CpAls.qmap p l` the mode list `l` expressed in modes of the second problem. -/
+
+section cpals_relabel
+open CpAls
+set_option linter.unusedSectionVars false
+variable {α : Type} [Field α] [LinearOrder α] [IsStrictOrderedRing α]
+
+/-- The interface law `mttkrp (permute X p) (U ∘ p) k = mttkrp X U p[k]` — the hypothesis of
+`C18_relabel_als_query` — is a consequence of the two `mttkrp` / `innerprod` laws of C02 for `X` and for
+`permute X p` (as an equality of matrices: for data whose `mttkrp` returns matrices of the documented size). -/
+theorem C18_relabel_mttkrp_law {D D' : Data α} {X : List Nat → α} {p : List Nat}
+    (hp : isPermOf p D.shape.length = true) (hD : DataLaws D X)
+    (hD' : DataLaws D' (fun j' => X (gather j' (invPerm p)))) (hs : D'.shape = gather D.shape p)
+    (hm : MttkrpShaped D) (hm' : MttkrpShaped D')
+    {R : Nat} {U : List (Mat α)} (hU : ShapeOK D.shape R U) {k : Nat} (hk : k < D.shape.length) :
+    D'.mttkrp (gatherD U p []) k = D.mttkrp U (p.getD k 0) :=
+  mttkrp_relabel hp hD hD' hs hm hm' hU hk
+
+/-- One mode update of the concrete model: updating mode `k` of the relabelled problem in the relabelled
+state succeeds when updating mode `p[k]` of the original problem does, and gives the relabelled state (same
+`mttkrp` matrix, same coefficient matrix — a product over the other modes, commutative —, same guard, same
+solver answer, same column scale, same weights).  `hlast` says that `k` is the last mode of the second
+sweep exactly when `p[k]` is the last mode of the first. -/
+theorem C18_relabel_cpals_mode_update {D D' : Data α} {S S' : Services α} {o : NumOps α} {p : List Nat}
+    (h : RelabelHyp D D' S S' p) {rank it last last' k : Nat} (hk : k < D.shape.length)
+    (hlast : (k == last') = (p.getD k 0 == last)) {st st1 : State α} (hst : StOK D rank st)
+    (hmu : CpAls.modeUpdate D S o rank it last (p.getD k 0) st = .ok st1) :
+    CpAls.modeUpdate D' S' o rank it last' k (relabelSt p st) = .ok (relabelSt p st1) :=
+  modeUpdate_relabel h hk hlast hst hmu
+
+/-- One pass (the sweep over `dims`, `iprod`, `M.norm()`, `normresidual`, `fit`, the stop test): the pass of
+the second run over the relabelled mode list ends in the relabelled state — in particular with the SAME fit,
+residual, fit change and stop flag (these fields are not touched by `relabelSt`). -/
+theorem C18_relabel_cpals_pass {D D' : Data α} {S S' : Services α} {o : NumOps α} {p : List Nat}
+    (h : RelabelHyp D D' S S' p) {rank it : Nat} {stoptol : α} {dims : List Nat} (hne : dims ≠ [])
+    (hdims : ∀ n ∈ dims, n < D.shape.length) {st st2 : State α} (hst : StOK D rank st)
+    (hi : iterStep D S o rank stoptol dims it st = .ok st2) :
+    iterStep D' S' o rank stoptol (qmap p dims) it (relabelSt p st) = .ok (relabelSt p st2) ∧
+    (relabelSt p st2).fit = st2.fit ∧ (relabelSt p st2).normresidual = st2.normresidual ∧
+    (relabelSt p st2).stop = st2.stop ∧ (relabelSt p st2).weights = st2.weights :=
+  ⟨(iterStep_relabel h hne hdims hst hi).1, rfl, rfl, rfl, rfl⟩
+
+/-- Any number of passes: the second run executes the same number of passes (same stop decisions) and ends
+in the relabelled final state. -/
+theorem C18_relabel_cpals_sweeps {D D' : Data α} {S S' : Services α} {o : NumOps α} {p : List Nat}
+    (h : RelabelHyp D D' S S' p) {rank : Nat} {stoptol : α} {dims : List Nat} (hne : dims ≠ [])
+    (hdims : ∀ n ∈ dims, n < D.shape.length) (fuel k : Nat) {st stF : State α} (hst : StOK D rank st)
+    (hl : loopFrom (iterStep D S o rank stoptol dims) fuel k st = .ok stF) :
+    loopFrom (iterStep D' S' o rank stoptol (qmap p dims)) fuel k (relabelSt p st) = .ok (relabelSt p stF) ∧
+    (relabelSt p stF).iteration = stF.iteration :=
+  ⟨(loop_relabel h hne hdims fuel k hst hl).1, rfl⟩
+
+/-- `arrange()` commutes with the relabelling when no weight is negative (CP-ALS's weights are column
+scales): the column norms are taken factor by factor, the weights collect their product — in a different
+order of multiplication —, the sign step of `normalize()`, which touches factor 0 (a DIFFERENT factor of the
+two problems), does nothing, and both runs sort the same weight vector. -/
+theorem C18_relabel_cpals_arrange {p : List Nat} {N : Nat} (hp : isPermOf p N = true) {o : NumOps α} (ho : o.Lawful)
+    (K : Ktensor α) (hK : K.factors.length = N) (hw : NoNeg K) (hwf : K.WF) :
+    arrange o (relabelK p K) = relabelK p (arrange o K) :=
+  arrange_relabel hp ho K hK hw hwf
+
+/-- `fixsigns()` commutes with the relabelling when, in every component, the number of modes whose dominant
+entry is negative is even or at most one (`ParityOK`): then the flipped set is all of them / none of them,
+whatever the mode order. -/
+theorem C18_relabel_cpals_fixsigns {p : List Nat} {N : Nat} (hp : isPermOf p N = true) (o : NumOps α) (K : Ktensor α)
+    (hK : K.factors.length = N) (hpar : ParityOK o K) :
+    fixsigns o (relabelK p K) = relabelK p (fixsigns o K) :=
+  fixsigns_relabel hp o K hK hpar
+
+/-- …and NOT otherwise (finding F18-fixsigns-relabel): with three modes whose dominant entries are all
+negative `fixsigns()` flips "the first two" — modes 0, 1 of the model, but modes `p[0] = 2`, `p[1] = 0` of
+its relabelling by `p = [2, 0, 1]`.  Explicit instance over ℚ: the two results are not relabellings of each
+other (they denote the same array: `C18_scale_cpals_cleanup`). -/
+theorem C18_relabel_cpals_fixsigns_counterexample :
+    fixsigns ratOps (relabelK [2, 0, 1] negK) ≠ relabelK [2, 0, 1] (fixsigns ratOps negK) ∧
+    (fixsigns ratOps negK).factors = [[[1]], [[3], [4]], [[-4], [-3]]] ∧
+    (fixsigns ratOps (relabelK [2, 0, 1] negK)).factors = [[[4], [3]], [[1]], [[-3], [-4]]] ∧
+    (negModes ratOps negK 0).length = 3 :=
+  relabel_fixsigns_counterexample
+
+/-- **Whole-run mode relabelling of CP-ALS.**  If `run D S o P init` (data `X`) returns `out`, then the run on
+`permute X p` with the start, `dimorder` and `optdims` relabelled RETURNS too, and its output `out'` satisfies:
+the same `iters` (same stop decision after every pass), the same `fit` and `normresidual` — whether kept from
+the last pass or recomputed from the cleaned-up model (`printitn > 0`) —, `dimorder` / `optdims` / `init` of
+the output relabelled, the same weights, and the returned model TENSOR is the relabelled tensor
+(`out'.M.get j' = out.M.get (gather j' (invPerm p))`).  At the level of the factor LISTS: there is one
+Kruskal tensor `M1` (the arranged model of the first run) such that `out.M` is `M1` resp. `fixsigns M1` and
+`out'.M` is `relabelK p M1` resp. `fixsigns (relabelK p M1)`; hence `out'.M = relabelK p out.M` — factor list
+permuted, weights equal — when `fixsigns` is off, and also when it is on and `M1` satisfies the parity
+condition.  Without it the factor lists can differ in sign
+(`C18_relabel_cpals_fixsigns_counterexample`).
+Hypotheses: a lawful number system; `p` a permutation of the modes; the data laws of C02 for `X` and
+`permute X p`, whose `mttkrp` return matrices of the documented size; the same `norm()`; the solver a function
+of the system (`hsolve`); for `init = "nvecs"` the relabelled `nvecs`; a well-shaped random / nvecs start. -/
+theorem C18_relabel_cpals_run {D D' : Data α} {S S' : Services α} {o : NumOps α} {X : List Nat → α} {p : List Nat}
+    (ho : o.Lawful) (hp : isPermOf p D.shape.length = true) (hD : DataLaws D X)
+    (hD' : DataLaws D' (fun j' => X (gather j' (invPerm p)))) (hs : D'.shape = gather D.shape p)
+    (hnorm : D'.norm = D.norm) (hm : MttkrpShaped D) (hm' : MttkrpShaped D')
+    (hsolve : ∀ k < D.shape.length, ∀ Y B, S'.solve k Y B = S.solve (p.getD k 0) Y B)
+    {P : Params α} {init : Init α}
+    (hnv : init = .nvecs → D'.nvecs = D.nvecs.map fun f k r => f (p.getD k 0) r)
+    (hi : InitOK D P.rank init) {out : Output α} (hrun : run D S o P init = .ok out) :
+    ∃ out' : Output α, run D' S' o (relabelParams p D.shape.length P) (relabelInit p init) = .ok out' ∧
+      out'.iters = out.iters ∧ out'.fit = out.fit ∧ out'.normresidual = out.normresidual ∧
+      out'.dimorder = qmap p out.dimorder ∧ out'.optdims = relabelOd p P.optdims out.optdims ∧
+      out'.init = relabelK p out.init ∧ out'.M.weights = out.M.weights ∧
+      (∀ j', j'.length = D.shape.length → out'.M.get j' = out.M.get (gather j' (invPerm p))) ∧
+      ∃ M1 : Ktensor α, M1.factors.length = D.shape.length ∧
+        out.M = (if P.fixsigns then fixsigns o M1 else M1) ∧
+        out'.M = (if P.fixsigns then fixsigns o (relabelK p M1) else relabelK p M1) ∧
+        (P.fixsigns = false ∨ ParityOK o M1 → out'.M = relabelK p out.M) :=
+  run_relabel ho (relabelHyp_of_laws hp hD hD' hs hnorm hm hm' hsolve) hD hD' hnv hi hrun
+
+end cpals_relabel
+
 /-! ### the hypotheses are satisfiable / the models compute something -/
 
 -- the stream fills matrices row by row, in call order, and reports what is left
@@ -508,6 +637,32 @@ example : ∃ out out' : CpAls.Output ℝ,
   obtain ⟨r1, r2, r3, r4, _⟩ :=
     C18_scale_cpals_run CpAls.realNumOps_lawful hS (by norm_num) hD hD' hs hnorm hnz hnv hi hreg h h'
   exact ⟨out, out', h, h', r1, r2, r3, r4 [0, 0] rfl⟩
+-- whole-run relabelling of CP-ALS, all hypotheses of `C18_relabel_cpals_run` at once on a concrete instance:
+-- ℝ with `Real.sqrt`; data = the 2 × 1 array [[3], [4]] behind the interface `CpAls.data21` and its transpose
+-- [[3, 4]] behind `CpAls.data12` (both satisfy the laws, proved entry by entry), p = [1, 0]; rank 1, two passes,
+-- dimorder [1, 0] (so the second run sweeps [0, 1]), start all ones, report recomputed, `fixsigns`; the 1 × 1
+-- solver.  The first run returns, hence the second does, with the same `iters` / `fit` and the transposed tensor.
+example : ∃ out out' : CpAls.Output ℝ,
+    CpAls.run (CpAls.data21 3 4 5) CpAls.solve1 CpAls.realNumOps CpAls.params21 (.given CpAls.start21) = .ok out ∧
+    CpAls.run (CpAls.data12 3 4 5) CpAls.solve1 CpAls.realNumOps
+      (CpAls.relabelParams [1, 0] 2 CpAls.params21) (.given (CpAls.relabelK [1, 0] CpAls.start21)) = .ok out' ∧
+    out'.iters = out.iters ∧ out'.fit = out.fit ∧ out'.dimorder = [0, 1] ∧ out'.M.weights = out.M.weights ∧
+    out'.M.get [0, 1] = out.M.get [1, 0] := by
+  obtain ⟨out, hH, hD, hD', hi, h⟩ := CpAls.instance21 CpAls.realNumOps_lawful (3 : ℝ) 4 5
+  obtain ⟨out', h', r1, r2, _, r4, _, _, r7, r8, _⟩ :=
+    CpAls.run_relabel CpAls.realNumOps_lawful hH hD hD' (fun hn => by cases hn) hi h
+  refine ⟨out, out', h, h', r1, r2, ?_, r7, r8 [0, 1] rfl⟩
+  rw [r4]
+  obtain ⟨di, od, dims, K, st, hsu, _, _, rfl⟩ := CpAls.run_ok h
+  rw [CpAls.setup21] at hsu
+  cases hsu
+  show CpAls.qmap [1, 0] [1, 0] = [0, 1]
+  decide
+-- the parity condition of `C18_relabel_cpals_fixsigns` is satisfiable by a model with negative columns
+-- (two negative modes: both are flipped, in any mode order), and fails for the counterexample
+example : CpAls.ParityOK CpAls.ratOps ⟨[2], [[[-1]], [[3], [4]], [[-4], [-3]]]⟩ ∧ ¬ CpAls.ParityOK CpAls.ratOps CpAls.negK := by
+  unfold CpAls.ParityOK
+  decide
 -- the MU fix-up acts exactly on the (near-)zero entries with a positive multiplier, never in the first iteration
 example : muFixupIf 1 (1 : Int) 1 [[1, 0], [2, 3]] [[0, 0], [5, 0]] = [[1, 0], [5, 1]] ∧
     muFixupIf 0 (1 : Int) 1 [[1, 0], [2, 3]] [[0, 0], [5, 0]] = [[0, 0], [5, 0]] ∧
